@@ -393,7 +393,9 @@ for fn, q, props in [("c04_fdw_vectored_5_5", True, ["C04"]), ("c04_fdw_vectored
               ("c04_fdw_split4", True, ["C04", "C01"]), ("c04_fdw_split0", False, ["C04", "C01"]), ("c04_fdw_split12", False, ["C04", "C01"]), ("c04_fdw_split_edges", True, ["C04"]),
               ("c04_fdw_unbuffered_write", True, ["C04", "C01"]), ("c04_fdw_unbuffered_vectored", True, ["C04", "C01"]),
               ("c04_fdw_write_from_buffered", True, ["C04"]), ("c04_fdw_write_from_at_buffered", True, ["C04"]), ("c04_fdw_write_from_unbuffered", False, ["C04"]),
-              ("c04_fdw_write_from_at_unbuffered", True, ["C04"]), ("c04_fdw_write_all_from_g3", False, ["C04"]), ("c04_fdw_write_all_from_g0", False, ["C04"]), ("c04_fdw_write_all_from_g8", False, ["C04"])]:
+              ("c04_fdw_write_from_at_unbuffered", True, ["C04"])]:
+    # c04_fdw_write_all_from_g{0,3,8} exist in the harness file but are NOT registered: the retry loop with io::Error
+    # paths in every iteration produced 10 M SAT variables and ran out of memory at 32 GB even with a concrete chunk size.
     reg(FDW, fn, props, flavour="real", tier="quick" if q else "thorough", timeout=900, mem=16,
         what="the REAL FuseDevWriter over a borrowed 12-byte buffer with canaries: " + fn[8:],
         bounds="buffer 12 bytes, split offset concrete (0/4/12, nested 8 then 2); all data bytes, all write lengths (0..6/0..4+0..4/0..5, unbuffered 0..8+0..6), file-transfer count (all usize), bytes produced (0..8), device refusal / short acceptance symbolic",
